@@ -343,6 +343,7 @@ class Check:
                        "broken": self.broken, "disagreements": self.disagreements[:5]},
                       open(path, "w"), indent=1, default=str)
             lines.append(f"VIOLATION property={self.pid} replay={path}")
+            print(f"  [{self.pid}] failing input ({key}): {what[:400]} :: {str(replay)[:400]}")
             n += 1
         if not unknown_failures and (self.broken or self.disagreements):
             path = os.path.join(REPLAYS, f"{self.pid}_{n}.json")
@@ -352,6 +353,7 @@ class Check:
                        "broken": self.broken, "disagreements": self.disagreements[:20]},
                       open(path, "w"), indent=1, default=str)
             lines.append(f"VIOLATION property={self.pid} replay={path} no-failing-input-found")
+            print(f"  [{self.pid}] broken: {str(self.broken)[:600]} disagreements: {str(self.disagreements[:2])[:800]}")
             n += 1
         self.violations = n
         discharged = sum(1 for _, ok in self.obligations if ok)
